@@ -65,6 +65,9 @@ pub fn outcome_json(spec: &Spec, out: &Outcome, with_obs: bool, with_orders: boo
         if plan.repeat > 0 {
             *fired.entry("same_thread_repeat".to_owned()).or_insert(0) += 1;
         }
+        if log.stalls > 0 {
+            *fired.entry("thread_stall".to_owned()).or_insert(0) += log.stalls;
+        }
         clock_reads += log.clock_reads;
         pid_reads += log.pid_reads;
     }
